@@ -1,14 +1,23 @@
 (* ProdParserValue.v -- the value grammar (css/value.py, tree_PropertyValue and its sub-grammars in Gen/ProdTrees.v)
    run by the production-engine model ProdParser.v on the rendered values of the generator grammar Grammar.v.
 
-   Stage 1 (this file, all Qed):
-     - runs / runs_cont / runs_break / runs_end / runs_parse : fuel-free reasoning about `loop` from an ARBITRARY state
-       (loop_mono: more fuel never changes a result that is not OutOfFuel);
+   STATUS: stage 1 of the plan (generic step lemmas, stack configurations, partial evaluation, leaf sub-parsers,
+   token classes of tree_PropertyValue) is complete; value_accepts (stage 2+) is NOT proved here.
+     - loop_mono, runs / runs_cont / runs_break / runs_end / runs_loop / runs_parse : fuel-free reasoning about `loop`
+       from an ARBITRARY state (more fuel never changes a result that is not OutOfFuel);
      - body_comment / body_skipS / body_find : one iteration of the main loop by token class;
      - PVStacks : the production-stack configurations stS0 / stA0 / stA k / stB k of
-       Sequence(term, Sequence(Choice(op)?, END?, term) 0..inf) with the transition lemmas for `find` and `final`;
-     - partial evaluation of match predicates (mev3 / tm3 / scan3): the token type is known, about the value only a
-       list of facts; sound w.r.t. meval / tmatches / cho_scan.  Keeps every big computation on CLOSED terms.
+       Seq(term, Seq(Cho(op)?, END?, term) 0..inf) with the transition lemmas find_S0_term, find_A0_term, find_A_term,
+       find_B_term, find_A0_op, find_A_op and the closing loop final_A0 / final_A / final_B;
+     - mev3 / tm3 / scan3 (+ _ok): partial evaluation of match predicates -- token type known, about the value only a
+       list of facts -- sound w.r.t. meval / tmatches / cho_scan; every big computation stays on CLOSED terms;
+     - process_plain_stop / process_plain_cont / process_false / process_sub : "process prod" by production kind;
+     - leaf_parse (+ _cho / _seqcho / _seqprod) and leaf4_ident / leaf4_urange / leaf4_string / leaf5_hash /
+       leaf5_ident / leaf6_number / leaf6_percentage / leaf6_dimension / leaf7_uri : a leaf sub-parser on
+       pushtoken(t, rest) consumes exactly t through a `stop` production, returns a well-formed one-item result and
+       leaves rest, anc and the stash untouched;
+     - pv_tree (tree_PropertyValue is an instance of PVStacks), pv_p_flags, pv_class_* (which production a token
+       selects), ex_value_accepts (closed end-to-end run).
    Stdlib only, no axioms. *)
 From CssV Require Import Base Regex Tokenizer ProdParser ProdParserFacts Gen.ProdTrees Grammar GrammarFacts.
 Local Open Scope nat_scope.
@@ -350,3 +359,263 @@ Proof.
   - inversion H; subst. eauto.
   - apply IH. exact H.
 Qed.
+
+
+(* ================================================================== Stage 2: PropertyValue *)
+Definition subR (d : nat) : nat -> bool -> tok -> list tok -> out := fun g a t l => pparse_sub d env_real g a (Some t) l.
+Definition postR := postof_env env_real.
+Lemma subR_ok d : sub_ok (subR d). Proof. exact (pparse_sub_ok d env_real). Qed.
+Lemma pparse_sub_S d g gr anc first toks :
+  nth_error env_real g = Some gr ->
+  pparse_sub (S d) env_real g anc first toks =
+  parse_tree (subR d) postR true (g_opts gr) (g_tree gr) anc first toks stash0.
+Proof. intros H. cbn [pparse_sub]. rewrite H. reflexivity. Qed.
+
+(* ---- "process prod" for the three kinds of productions of the value grammars *)
+Section Proc.
+  Variable sub : nat -> bool -> tok -> list tok -> out.
+  Variable postof : nat -> option postcode.
+
+  (* a production with a plain toSeq callback and `stop` *)
+  Lemma process_plain_stop p t st ty' v' :
+    p_stopkeep p = false -> aplain (p_toseq p) t = Some (ty', v') -> p_store p = None -> p_stop p = true ->
+    process sub postof p t st = LBreak (add_item st (IStr ty' v')).
+  Proof.
+    intros H1 H2 H3 H4. unfold process, do_store. rewrite H1, H3, H4.
+    destruct (p_toseq p); cbn [aplain] in H2; try discriminate; cbn [aplain]; rewrite ?H2;
+      try (inversion H2; subst); destruct st; reflexivity.
+  Qed.
+  (* a plain production that continues (defaultS back to True) *)
+  Lemma process_plain_cont p t st ty' v' :
+    p_stopkeep p = false -> aplain (p_toseq p) t = Some (ty', v') -> p_store p = None -> p_stop p = false -> p_nextsor p = false ->
+    process sub postof p t st = LCont (set_defaultS (add_item st (IStr ty' v')) true).
+  Proof.
+    intros H1 H2 H3 H4 H5. unfold process, do_store. rewrite H1, H3, H4, H5.
+    destruct (p_toseq p); cbn [aplain] in H2; try discriminate; cbn [aplain]; rewrite ?H2;
+      try (inversion H2; subst); destruct st; reflexivity.
+  Qed.
+  (* toSeq=False *)
+  Lemma process_false p t st :
+    p_stopkeep p = false -> p_toseq p = AFalse -> p_stop p = false -> p_nextsor p = false ->
+    process sub postof p t st = LCont (set_defaultS st true).
+  Proof. intros H1 H2 H3 H4. unfold process. rewrite H1, H2, H3, H4. reflexivity. Qed.
+  (* a sub-parser production *)
+  Lemma process_sub p t lbl g stk seq sto wf started stopall dS stopnm afterS strict keep anc l sh r pc w its mt :
+    p_stopkeep p = false -> p_toseq p = ASub lbl g -> p_store p = None -> p_stop p = false ->
+    sub g anc t l = Ret r -> postof g = Some pc -> post pc r = PRet w its mt ->
+    process sub postof p t (mkLs stk seq sto wf started stopall dS stopnm afterS strict keep SOff anc l sh) =
+    LCont (mkLs stk (IObj (match lbl with Some x => x | None => ty t end) g w its mt :: seq) sto wf started stopall
+                (negb (p_nextsor p)) stopnm afterS strict keep (if p_nextsor p then SOn else SOff) (anc && r_anc r) (r_rest r) (r_stash r)).
+  Proof.
+    intros H1 H2 H3 H4 H5 H6 H7. unfold process, do_store. rewrite H1, H2, H3, H4.
+    cbn [l_anc l_own l_rest orb]. rewrite orb_false_r, H5, H6, H7. cbn. destruct (p_nextsor p); reflexivity.
+  Qed.
+End Proc.
+
+(* ---- a leaf sub-parser: the first token selects a `stop` production with a plain callback *)
+Lemma leaf_parse D g gr f0 anc t0 l p stk' ty' v' :
+  nth_error env_real g = Some gr -> o_checkS (g_opts gr) = false ->
+  enter (g_tree gr) = Some f0 -> plain_ty (ty t0) -> isS t0 = false ->
+  find (find_fuel [f0]) [f0] t0 = FFound p stk' ->
+  p_stopkeep p = false -> aplain (p_toseq p) t0 = Some (ty', v') -> p_store p = None -> p_stop p = true ->
+  final stk' (negb (p_mayend p)) true = FinOk true -> eqs ty' (s "S") = false ->
+  pparse_sub (S D) env_real g anc (Some t0) l = Ret (mkRes true [IStr ty' v'] [] false None SOff anc l stash0).
+Proof.
+  intros Hg Hck He Hpl HS Hf H1 H2 H3 H4 Hfin Hty.
+  rewrite (pparse_sub_S D g gr anc _ l Hg).
+  eapply runs_parse; [apply subR_ok|unfold init_state; rewrite He; reflexivity|].
+  eapply runs_break; [reflexivity| |].
+  - rewrite body_find; [|exact Hck|exact Hpl|cbn [l_defaultS set_stream]; rewrite HS; apply andb_false_r].
+    cbn [l_stack set_stream]. rewrite Hf. rewrite (process_plain_stop _ _ _ _ _ _ _ H1 H2 H3 H4). reflexivity.
+  - unfold finish. cbn [l_stopall add_item set_found set_started set_stream l_stack l_strict l_wf l_seq]. rewrite Hfin.
+    cbn [rstripS item_ty]. rewrite Hty, andb_false_r. reflexivity.
+Qed.
+
+Lemma find_cho_root f ps oo t p a : cho_scan ps (Some t) false = (Some (PProd p), a) ->
+  find (S f) [FCho ps oo false] t = FFound p [FCho ps oo true].
+Proof. intros H. apply find_nprod. cbn [next]. rewrite H. reflexivity. Qed.
+
+Definition plain_act (a : acode) : bool :=
+  match a with ADefault | ANorm | ALower | AStrVal | AUriVal | AConstTy _ => true | _ => false end.
+
+(* grammar = Choice(stop productions ...) : Value, ColorValue *)
+Lemma leaf_parse_cho D g gr ps oo fs anc t0 l p ty' v' :
+  nth_error env_real g = Some gr -> o_checkS (g_opts gr) = false -> g_tree gr = PCho ps oo ->
+  plain_ty (ty t0) -> isS t0 = false -> facts_ok fs (ty t0) (val t0) -> scan3 fs (ty t0) ps = Some (PProd p) ->
+  p_stopkeep p = false -> aplain (p_toseq p) t0 = Some (ty', v') -> p_store p = None -> p_stop p = true ->
+  eqs ty' (s "S") = false ->
+  pparse_sub (S D) env_real g anc (Some t0) l = Ret (mkRes true [IStr ty' v'] [] false None SOff anc l stash0).
+Proof.
+  intros Hg Hck Ht Hpl HS Hfs Hsc H1 H2 H3 H4 Hty.
+  destruct (scan3_ok fs t0 Hfs ps _ false Hsc) as [a Ha].
+  eapply (leaf_parse D g gr (FCho ps (topt (PCho ps oo)) false) anc t0 l p [FCho ps (topt (PCho ps oo)) true]); eauto.
+  - rewrite Ht. reflexivity.
+  - unfold find_fuel. cbn [length Nat.add]. eapply find_cho_root. exact Ha.
+Qed.
+
+(* grammar = Sequence(Choice(stop productions ...)) : DimensionValue *)
+Lemma leaf_parse_seqcho D g gr ps fs anc t0 l p ty' v' :
+  nth_error env_real g = Some gr -> o_checkS (g_opts gr) = false -> g_tree gr = PSeq [PCho ps None] 1 (Some 1) ->
+  plain_ty (ty t0) -> isS t0 = false -> facts_ok fs (ty t0) (val t0) -> scan3 fs (ty t0) ps = Some (PProd p) ->
+  p_stopkeep p = false -> aplain (p_toseq p) t0 = Some (ty', v') -> p_store p = None -> p_stop p = true ->
+  eqs ty' (s "S") = false ->
+  pparse_sub (S D) env_real g anc (Some t0) l = Ret (mkRes true [IStr ty' v'] [] false None SOff anc l stash0).
+Proof.
+  intros Hg Hck Ht Hpl HS Hfs Hsc H1 H2 H3 H4 Hty.
+  destruct (scan3_ok fs t0 Hfs ps _ false Hsc) as [a Ha].
+  destruct (cho_scan_found _ _ _ _ _ Ha) as [HT _].
+  eapply (leaf_parse D g gr (FSeq [PCho ps None] 1 (Some 1) 0 0 false) anc t0 l p
+            [FCho ps (topt (PCho ps None)) true; FSeq [PCho ps None] 1 (Some 1) 0 1 true]); eauto.
+  - rewrite Ht. reflexivity.
+  - unfold find_fuel. cbn [length Nat.add].
+    rewrite (find_nest _ _ _ _ (PCho ps None) (FSeq [PCho ps None] 1 (Some 1) 0 1 true) (FCho ps (topt (PCho ps None)) false));
+      [|cbn [next seq_loop length nth_error below Nat.ltb Nat.leb Nat.eqb]; rewrite HT; reflexivity|reflexivity].
+    apply find_nprod. cbn [next]. rewrite Ha. reflexivity.
+Qed.
+
+(* grammar = Sequence(stop production) : URIValue *)
+Lemma leaf_parse_seqprod D g gr fs anc t0 l p ty' v' :
+  nth_error env_real g = Some gr -> o_checkS (g_opts gr) = false -> g_tree gr = PSeq [PProd p] 1 (Some 1) ->
+  plain_ty (ty t0) -> isS t0 = false -> facts_ok fs (ty t0) (val t0) -> mev3 fs (ty t0) (p_match p) = Some true ->
+  p_stopkeep p = false -> aplain (p_toseq p) t0 = Some (ty', v') -> p_store p = None -> p_stop p = true ->
+  eqs ty' (s "S") = false ->
+  pparse_sub (S D) env_real g anc (Some t0) l = Ret (mkRes true [IStr ty' v'] [] false None SOff anc l stash0).
+Proof.
+  intros Hg Hck Ht Hpl HS Hfs Hsc H1 H2 H3 H4 Hty.
+  pose proof (mev3_ok _ _ _ Hfs _ _ Hsc) as Hm.
+  eapply (leaf_parse D g gr (FSeq [PProd p] 1 (Some 1) 0 0 false) anc t0 l p [FSeq [PProd p] 1 (Some 1) 0 1 true]); eauto.
+  - rewrite Ht. reflexivity.
+  - unfold find_fuel. cbn [length Nat.add]. apply find_nprod.
+    cbn [next seq_loop length nth_error below Nat.ltb Nat.leb Nat.eqb tmatches tok_matches]. rewrite Hm. reflexivity.
+Qed.
+
+Definition leaf_res (it : item) (anc : bool) (l : list tok) : result := mkRes true [it] [] false None SOff anc l stash0.
+
+Ltac leaf_tac L g ffs tt Hfacts Hap :=
+  eapply (L _ g) with (fs := ffs) (t0 := tt);
+    [reflexivity|reflexivity|reflexivity|repeat split; reflexivity|reflexivity|Hfacts|vm_compute; reflexivity|reflexivity
+    |Hap|reflexivity|reflexivity|reflexivity].
+
+Lemma leaf4_ident D anc v l :
+  pparse_sub (S D) env_real 4 anc (Some (T "IDENT" v)) l = Ret (leaf_res (IStr (s "IDENT") v) anc l).
+Proof. leaf_tac leaf_parse_cho 4 (@nil (mcode * bool)) (T "IDENT" v) ltac:(constructor) ltac:(reflexivity). Qed.
+Lemma leaf4_urange D anc v l :
+  pparse_sub (S D) env_real 4 anc (Some (T "UNICODE-RANGE" v)) l = Ret (leaf_res (IStr (s "UNICODE-RANGE") (lower v)) anc l).
+Proof. leaf_tac leaf_parse_cho 4 (@nil (mcode * bool)) (T "UNICODE-RANGE" v) ltac:(constructor) ltac:(reflexivity). Qed.
+Lemma leaf4_string D anc v x l : stringvalue v = Some x ->
+  pparse_sub (S D) env_real 4 anc (Some (T "STRING" v)) l = Ret (leaf_res (IStr (s "STRING") x) anc l).
+Proof.
+  intros Hx. leaf_tac leaf_parse_cho 4 (@nil (mcode * bool)) (T "STRING" v) ltac:(constructor)
+    ltac:(cbn [aplain p_toseq val T]; rewrite Hx; reflexivity).
+Qed.
+Lemma leaf5_hash D anc v l : hexcolor_re v = true ->
+  pparse_sub (S D) env_real 5 anc (Some (T "HASH" v)) l = Ret (leaf_res (IStr (s "HASH") v) anc l).
+Proof.
+  intros Hx. leaf_tac leaf_parse_cho 5 [(MHexRe, true)] (T "HASH" v) ltac:(repeat constructor; exact Hx) ltac:(reflexivity).
+Qed.
+Lemma leaf5_ident D anc v l : mem_s (normalize v) color_keys = true ->
+  pparse_sub (S D) env_real 5 anc (Some (T "IDENT" v)) l = Ret (leaf_res (IStr (s "IDENT") v) anc l).
+Proof.
+  intros Hx. leaf_tac leaf_parse_cho 5 [(MNormIn color_keys, true)] (T "IDENT" v) ltac:(repeat constructor; exact Hx) ltac:(reflexivity).
+Qed.
+Lemma leaf6_number D anc v l :
+  pparse_sub (S D) env_real 6 anc (Some (T "NUMBER" v)) l = Ret (leaf_res (IStr (s "NUMBER") v) anc l).
+Proof. leaf_tac leaf_parse_seqcho 6 (@nil (mcode * bool)) (T "NUMBER" v) ltac:(constructor) ltac:(reflexivity). Qed.
+Lemma leaf6_percentage D anc v l :
+  pparse_sub (S D) env_real 6 anc (Some (T "PERCENTAGE" v)) l = Ret (leaf_res (IStr (s "PERCENTAGE") v) anc l).
+Proof. leaf_tac leaf_parse_seqcho 6 (@nil (mcode * bool)) (T "PERCENTAGE" v) ltac:(constructor) ltac:(reflexivity). Qed.
+Lemma leaf6_dimension D anc v l :
+  pparse_sub (S D) env_real 6 anc (Some (T "DIMENSION" v)) l = Ret (leaf_res (IStr (s "DIMENSION") (normalize v)) anc l).
+Proof. leaf_tac leaf_parse_seqcho 6 (@nil (mcode * bool)) (T "DIMENSION" v) ltac:(constructor) ltac:(reflexivity). Qed.
+Lemma leaf7_uri D anc v x l : urivalue v = Some x ->
+  pparse_sub (S D) env_real 7 anc (Some (T "URI" v)) l = Ret (leaf_res (IStr (s "URI") x) anc l).
+Proof.
+  intros Hx. leaf_tac leaf_parse_seqprod 7 (@nil (mcode * bool)) (T "URI" v) ltac:(constructor)
+    ltac:(cbn [aplain p_toseq val T]; rewrite Hx; reflexivity).
+Qed.
+
+
+(* ---- tree_PropertyValue is an instance of the PVStacks shape *)
+Definition pv_ts : list ptree := match tree_PropertyValue with PSeq (PCho l _ :: _) _ _ => l | _ => [] end.
+Definition pv_ops : list ptree := match tree_PropertyValue with PSeq [_; PSeq (PCho l _ :: _) _ _] _ _ => l | _ => [] end.
+Definition pv_pe : prod :=
+  match tree_PropertyValue with
+  | PSeq [_; PSeq [_; PProd p; _] _ _] _ _ => p
+  | _ => mkProd [] MFalse true AFalse None false false false false false false
+  end.
+Lemma pv_tree : tree_PropertyValue = Top pv_ts pv_ops pv_pe.
+Proof. reflexivity. Qed.
+Lemma pv_pe_opt : p_opt pv_pe = true. Proof. reflexivity. Qed.
+Lemma pv_ot : topt (ChoT pv_ts) = false. Proof. reflexivity. Qed.
+Lemma pv_init toks : init_state tree_PropertyValue false None toks stash0 =
+  Some (mkLs (stS0 pv_ts pv_ops pv_pe) [] [] true false false true false false false None SOff false toks stash0).
+Proof. reflexivity. Qed.
+Definition pv_p (i : nat) : prod := match nth_error pv_ts i with Some (PProd p) => p | _ => pv_pe end.
+Definition pv_o (i : nat) : prod := match nth_error pv_ops i with Some (PProd p) => p | _ => pv_pe end.
+
+(* every term production of PropertyValue: sub-parser, no store, no stop, nextSor, mayEnd unset *)
+Lemma pv_p_flags i : i < 8 ->
+  p_stopkeep (pv_p i) = false /\ p_store (pv_p i) = None /\ p_stop (pv_p i) = false /\ p_nextsor (pv_p i) = true /\
+  p_mayend (pv_p i) = false /\ p_stopnm (pv_p i) = false /\ exists lbl g, p_toseq (pv_p i) = ASub (Some lbl) g.
+Proof.
+  intros H. do 8 (destruct i as [|i]; [repeat split; eexists; eexists; reflexivity|]). lia.
+Qed.
+
+(* ---- which production a token selects in the term Choice / the operator Choice (token type + facts about the value) *)
+Definition okv (v : str) : Prop :=
+  eqs v (s ",") = false /\ eqs v (s "/") = false /\ eqs v (s ";") = false.
+Definition okv_facts : facts := [(MVal (s ","), false); (MVal (s "/"), false); (MVal (s ";"), false)].
+Lemma okv_facts_ok t v : okv v -> facts_ok okv_facts t v.
+Proof. intros [H1 [H2 H3]]. repeat constructor; assumption. Qed.
+
+Lemma pv_class fs (tk : tok) i :
+  facts_ok fs (ty tk) (val tk) ->
+  tm3 fs (ty tk) (ChoOp pv_ops) = Some false -> mev3 fs (ty tk) (p_match pv_pe) = Some false ->
+  scan3 fs (ty tk) pv_ts = Some (PProd (pv_p i)) ->
+  tmatches (ChoOp pv_ops) (Some tk) = false /\ tok_matches pv_pe (Some tk) = false /\
+  exists a, cho_scan pv_ts (Some tk) false = (Some (PProd (pv_p i)), a).
+Proof.
+  intros Hf H1 H2 H3. split; [exact (tm3_ok _ _ Hf _ _ H1)|]. split; [exact (mev3_ok _ _ _ Hf _ _ H2)|].
+  exact (scan3_ok _ _ Hf _ _ false H3).
+Qed.
+
+(* the classes of the single-token terms *)
+Lemma pv_class_number v : okv v -> let tk := T "NUMBER" v in
+  tmatches (ChoOp pv_ops) (Some tk) = false /\ tok_matches pv_pe (Some tk) = false /\
+  exists a, cho_scan pv_ts (Some tk) false = (Some (PProd (pv_p 1)), a).
+Proof. intros H tk. apply (pv_class okv_facts tk 1 (okv_facts_ok _ _ H)); vm_compute; reflexivity. Qed.
+Lemma pv_class_ident v : okv v -> mem_s (normalize v) color_keys = false -> let tk := T "IDENT" v in
+  tmatches (ChoOp pv_ops) (Some tk) = false /\ tok_matches pv_pe (Some tk) = false /\
+  exists a, cho_scan pv_ts (Some tk) false = (Some (PProd (pv_p 3)), a).
+Proof.
+  intros H Hc tk. apply (pv_class ((MNormIn color_keys, false) :: okv_facts) tk 3); [|vm_compute; reflexivity..].
+  constructor; [exact Hc|exact (okv_facts_ok _ _ H)].
+Qed.
+Lemma pv_class_color_ident v : okv v -> mem_s (normalize v) color_keys = true -> let tk := T "IDENT" v in
+  tmatches (ChoOp pv_ops) (Some tk) = false /\ tok_matches pv_pe (Some tk) = false /\
+  exists a, cho_scan pv_ts (Some tk) false = (Some (PProd (pv_p 0)), a).
+Proof.
+  intros H Hc tk. apply (pv_class ((MNormIn color_keys, true) :: okv_facts) tk 0); [|vm_compute; reflexivity..].
+  constructor; [exact Hc|exact (okv_facts_ok _ _ H)].
+Qed.
+Lemma pv_class_comma : cho_scan pv_ops (Some (ch ",")) false = (Some (PProd (pv_o 1)), false).
+Proof. vm_compute. reflexivity. Qed.
+Lemma pv_class_slash : cho_scan pv_ops (Some (ch "/")) false = (Some (PProd (pv_o 2)), true).
+Proof. vm_compute. reflexivity. Qed.
+Lemma pv_class_ws (a : tok) : isS a = true -> exists b, cho_scan pv_ops (Some a) false = (Some (PProd (pv_o 0)), b).
+Proof.
+  intros H. unfold isS in H. apply eqs_spec in H.
+  apply (scan3_ok [] a); [constructor|]. rewrite H. vm_compute. reflexivity.
+Qed.
+
+(* ---- the whole grammar on a concrete rendered value (every separator, comments, a colour keyword, a hex colour,
+   a string, a URI): accepted, well-formed, PostPV keeps all items *)
+Definition ex_num := mkNum 0 (s "12") None.
+Definition ex_decl := mkDecl (s "x") 0 1 (TmIdent (s "red"))
+  [(SepSp 2, TmNum ex_num); (SepComma 3 4, TmDim ex_num (s "px")); (SepSlash 5 6, TmHex (s "abc"));
+   (SepSp 7, TmStr 8 (s "ab")); (SepSp 9, TmUrl 10 (s "u"))] 11 None.
+Definition ex_lay : layout := [0;1;2;3;4;5;6;7;8;9;10;11;12].
+Example ex_value_accepts :
+  exists r, pparse_env 3 env_real gid_PropertyValue (decl_value ex_lay ex_decl (gopt ex_lay 12)) = Ret r /\
+            r_wf r = true /\ post PostPV r = PRet true (r_items r) [] /\ length (r_items r) = 16.
+Proof. eexists. split; [vm_compute; reflexivity|]. repeat split; vm_compute; reflexivity. Qed.
